@@ -282,13 +282,41 @@ func newEngineFixMode(c *core.Ctx, rule string, prog absProgram, createdLimit in
 			e.stores[store][f] = true
 		}
 	}
+	// The engine under evaluation is the engine of ONE stratum: programInfo holds the stratum's rules and
+	// declarations, while predToRules / predToDecl describe the whole program. A rule of a higher stratum
+	// (zz(X) :- <first derived predicate>(X)) is part of the whole program only; a zz fact in the result means
+	// that rules of another stratum were run inside this one.
+	nOwn := len(prog.rules)
+	if nOwn > 0 {
+		e.prog.rules = append(append([]absRule{}, prog.rules...), absRule{head: "zz", body: []string{prog.rules[0].head}})
+	}
 	var rules []ordabs.Value
-	for i := range prog.rules {
+	for i := 0; i < nOwn; i++ {
 		rules = append(rules, e.clauseRec(i, -1))
+	}
+	mkDecl := func(p string) *ordabs.Obj {
+		d := e.k.zero("ast", "Decl")
+		d.Fields["DeclaredAtom"] = e.k.atom(p, 1)
+		return &ordabs.Obj{Name: "decl-" + p, Fields: d.Fields}
+	}
+	ownDecls, allDecls, allRules := ordabs.NewMap(), ordabs.NewMap(), ordabs.NewMap()
+	for i, r := range e.prog.rules {
+		ps := predSym(r.head, 1)
+		ks := ordabs.KeyString(ps)
+		if i < nOwn {
+			ownDecls.M[ks], ownDecls.Keys[ks] = mkDecl(r.head), ps
+		}
+		allDecls.M[ks], allDecls.Keys[ks] = mkDecl(r.head), ps
+		var rs []ordabs.Value
+		if old, ok := allRules.M[ks].(*ordabs.Slice); ok {
+			rs = append(rs, *old.Elems...)
+		}
+		rs = append(rs, e.clauseRec(i, -1))
+		allRules.M[ks], allRules.Keys[ks] = &ordabs.Slice{Elems: &rs}, ps
 	}
 	pi := e.k.zero("analysis", "ProgramInfo")
 	pi.Fields["Rules"] = &ordabs.Slice{Elems: &rules}
-	pi.Fields["Decls"] = ordabs.NewMap()
+	pi.Fields["Decls"] = ownDecls
 	opts := e.k.zero("engine", "EvalOptions")
 	opts.Fields["createdFactLimit"] = createdLimit
 	if createdLimit > 0 {
@@ -310,8 +338,8 @@ func newEngineFixMode(c *core.Ctx, rule string, prog absProgram, createdLimit in
 	eng.Fields["deltaStore"] = e.newStore("delta0")
 	eng.Fields["programInfo"] = &ordabs.Obj{Name: "programInfo", Fields: pi.Fields}
 	eng.Fields["options"] = opts
-	eng.Fields["predToRules"] = ordabs.NewMap()
-	eng.Fields["predToDecl"] = ordabs.NewMap()
+	eng.Fields["predToRules"] = allRules
+	eng.Fields["predToDecl"] = allDecls
 	e.engine = &ordabs.Obj{Name: "engine", Fields: eng.Fields}
 	e.in.Stubs["engine.engine.mergeDelta"] = func(in *ordabs.Interp, recv ordabs.Value, _ []ordabs.Value) ([]ordabs.Value, error) {
 		eo := recv.(*ordabs.Obj)
@@ -323,12 +351,24 @@ func newEngineFixMode(c *core.Ctx, rule string, prog absProgram, createdLimit in
 		in.Emit("merge")
 		return []ordabs.Value{nil}, nil
 	}
-	e.in.Stubs["engine.makeDeltaRules"] = func(in *ordabs.Interp, _ ordabs.Value, _ []ordabs.Value) ([]ordabs.Value, error) {
+	// makeDeltaRules has its own obligations (rule delta-rules); here it is a model that honours its arguments:
+	// one delta rule per body position whose predicate is declared in decls, for every rule of a declared head.
+	e.in.Stubs["engine.makeDeltaRules"] = func(in *ordabs.Interp, _ ordabs.Value, args []ordabs.Value) ([]ordabs.Value, error) {
+		decls, _ := args[0].(*ordabs.Map)
+		declared := map[string]bool{}
+		if decls != nil {
+			for _, kp := range decls.Keys {
+				declared[symOf(kp)] = true
+			}
+		}
 		m := ordabs.NewMap()
-		for i, r := range prog.rules {
+		for i, r := range e.prog.rules {
+			if !declared[r.head] {
+				continue
+			}
 			var drs []ordabs.Value
 			for pos, b := range r.body {
-				if e.idb[b] {
+				if declared[b] {
 					drs = append(drs, e.clauseRec(i, pos))
 				}
 			}
@@ -375,12 +415,12 @@ func newEngineFixMode(c *core.Ctx, rule string, prog absProgram, createdLimit in
 		if dp >= 0 {
 			for f := range dl {
 				if !st[f] && e.invBad == "" {
-					e.invBad = fmt.Sprintf("program %s: a delta rule for %s is evaluated while %s is in the delta store but not yet in the store, so a join with another fact of the same round cannot succeed", prog.name, prog.rules[idx].head, f)
+					e.invBad = fmt.Sprintf("program %s: a delta rule for %s is evaluated while %s is in the delta store but not yet in the store, so a join with another fact of the same round cannot succeed", prog.name, e.prog.rules[idx].head, f)
 				}
 			}
 		}
 		var out []ordabs.Value
-		for _, f := range prog.rules[idx].derive(st, dl, int(dp)) {
+		for _, f := range e.prog.rules[idx].derive(st, dl, int(dp)) {
 			z, _ := ordabs.ZeroOf(dtf)
 			r := z.(*ordabs.Rec)
 			r.Fields["Atom"] = e.atomOf(f)
